@@ -76,6 +76,7 @@ Section Proofs.
       destruct (update_time clock_at o (v_reads (w_v w))) as [t reads]. inversion H; subst; simpl; auto.
     - inversion H; subst; simpl. repeat split; eauto.
     - destruct (w_validate (wo_writer o)); [inversion H; subst; simpl; auto|].
+      destruct (String.eqb (apply_id idfun id0) "" && wo_gen_id o); [inversion H; subst; simpl; auto|].
       destruct (c_get_fn m_empty false o (apply_id idfun id0) false (c_items (w_c w))) as [[b|code] cr]; inversion H; subst; simpl; auto.
     - destruct (change_fn m_eqb m_empty w_merge o msg old); [|inversion H; subst; simpl; auto].
       destruct (c_get_fn m_empty false o (apply_id idfun id0) cr (c_items (w_c w))) as [[b|code] cr']; [|inversion H; subst; simpl; auto].
@@ -111,6 +112,7 @@ Section Proofs.
       destruct (update_time clock_at o (v_reads (w_v w))) as [t reads]. inversion H; subst; simpl; auto.
     - inversion H; subst; reflexivity.
     - destruct (w_validate (wo_writer o)); [inversion H; subst; reflexivity|].
+      destruct (String.eqb (apply_id idfun id0) "" && wo_gen_id o); [inversion H; subst; reflexivity|].
       destruct (c_get_fn m_empty false o (apply_id idfun id0) false (c_items (w_c w))) as [[b|code] cr]; inversion H; subst; reflexivity.
     - destruct (change_fn m_eqb m_empty w_merge o msg old); [|inversion H; subst; reflexivity].
       destruct (c_get_fn m_empty false o (apply_id idfun id0) cr (c_items (w_c w))) as [[b|code] cr']; [|inversion H; subst; reflexivity].
@@ -139,7 +141,7 @@ Section Proofs.
     intros Hok Hs H. destruct c as [msg o|id0 msg o|id0 o|ro|ro|id1 ro]; simpl in H.
     - destruct (set_ref m_eqb m_empty w_validate w_merge clock_at (fst vc) msg o) as [[v' r'] ev]. inversion H. subst. left. auto.
     - simpl in Hok.
-      pose proof (spec_update_eq m_eqb m_empty w_validate w_merge clock_at str_ltb idfun (snd vc) id0 msg o Hok) as E.
+      pose proof (spec_update_eq m_eqb m_empty w_validate w_merge clock_at str_ltb idfun (snd vc) id0 msg o) as E.
       destruct (spec_c_update m_eqb m_empty w_validate w_merge clock_at str_ltb idfun (snd vc) id0 msg o []) as [[[c1 r1] ev1] cb] eqn:U.
       rewrite <- E in H. inversion H. subst.
       assert (S : spec_step m_eqb m_empty w_validate w_merge r_filter clock_at str_ltb idfun (snd vc) (@OUpdate M writer rmask id0 msg o []) = (c1, RWrite r1 cb, cev)).
@@ -165,7 +167,7 @@ Section Proofs.
     end.
   Proof.
     intros Hok Hwf Hs T.
-    pose proof (trans_lin m_eqb m_empty w_validate w_merge clock_at str_ltb idfun m_eqb_eq c p w Hok Hwf T) as L.
+    pose proof (trans_lin m_eqb m_empty w_validate w_merge clock_at str_ltb idfun m_eqb_eq c p w Hwf T) as L.
     destruct (predicted c p), (predicted c p').
     - destruct L as (_ & Hm & ->). simpl. unfold mem in Hm. inversion Hm. congruence.
     - contradiction.
@@ -1224,6 +1226,7 @@ Section Proofs.
       destruct (om_eqb m_eqb old (v_val (w_v w))); [|discriminate].
       destruct (update_time clock_at o (v_reads (w_v w))). discriminate.
     - destruct (w_validate (wo_writer o)); [discriminate|].
+      destruct (String.eqb (apply_id idfun id0) "" && wo_gen_id o); [discriminate|].
       destruct (c_get_fn m_empty false o (apply_id idfun id0) false (c_items (w_c w))) as [[b|code] cr]; discriminate.
     - destruct (change_fn m_eqb m_empty w_merge o msg old); [|discriminate].
       destruct (c_get_fn m_empty false o (apply_id idfun id0) cr (c_items (w_c w))) as [[b|code] cr']; [|discriminate].
